@@ -465,6 +465,16 @@ func (c *cell) genFloat(rnd *rand.Rand, k int) float64 {
 	case 1:
 		return c.fhi
 	}
+	// a near neighbour of the value the characteristic holds now (one unit in the last place, a relative 1e-12, 1e-9 and
+	// 1e-6 away): a different valid value
+	if cur, ok := c.ch.Value.(float64); ok && k >= 2 && k%3 == 2 && !math.IsNaN(cur) && !math.IsInf(cur, 0) {
+		for _, v := range []float64{math.Nextafter(cur, math.Inf(1)), math.Nextafter(cur, math.Inf(-1)), cur * (1 + 1e-12), cur * (1 - 1e-9), cur + 1e-6*math.Abs(cur)} {
+			if v != cur && in(v) && !math.IsInf(v, 0) && rnd.Intn(2) == 0 {
+				floatNeighbours.Add(1)
+				return v
+			}
+		}
+	}
 	for try := 0; try < 8; try++ {
 		var v float64
 		if k < 2+len(floatSpecials) && try == 0 {
@@ -681,7 +691,7 @@ func encodeString(s string, style int) string {
 	return b.String()
 }
 
-var intSpellings atomic.Int64
+var intSpellings, floatNeighbours atomic.Int64
 
 func encodeValue(v interface{}, rnd *rand.Rand) string {
 	switch x := v.(type) {
@@ -2014,6 +2024,8 @@ func main() {
 	r.Floor("callbacks_checked", int(r.Counter("callbacks_checked")), 300)
 	r.Floor("put_entries_for_non_existing_ids", int(r.Counter("put_entries_for_non_existing_ids")), 3)
 	r.Floor("formats", len(formatsSeen()), 7)
+	r.Count("float_values_next_to_the_current_value", int(floatNeighbours.Load()))
+	r.Floor("float_values_next_to_the_current_value", int(floatNeighbours.Load()), 30)
 	r.Count("integer_writes_spelled_with_exponent_or_fraction", int(intSpellings.Load()))
 	r.Floor("integer_writes_spelled_with_exponent_or_fraction", int(intSpellings.Load()), 50)
 	_ = utf8.RuneError
